@@ -29,9 +29,8 @@ def layout_xy(li):
         return None
     o = li.origin
     val = lambda e: getattr(e, "value", e)
-    good = (o is not None and val(o.x.unit) == "%" and val(o.y.unit) == "%" and li.extent is None
-            and li.padding is None and li.alignment is not None
-            and val(li.alignment.horizontal) == "left" and val(li.alignment.vertical) == "top")
+    # the property fixes the ORIGIN (percent of the safe area); alignment / extent / padding are not part of it
+    good = o is not None and val(o.x.unit) == "%" and val(o.y.unit) == "%"
     return [exact(o.x.value), exact(o.y.value)] if good else ["bad-layout", repr(li)]
 
 
@@ -59,14 +58,28 @@ def observe(stream, offset=0):
     return Ok([canon_caption(c) for c in r.v.get_captions(langs[0])])
 
 
+import re as _re
+_LINE = _re.compile(r"([0-9:;]*)([\s\t]*)((.)*)")
+
+
 def parse_lines(stream):
-    """the generators' own streams: header, blank lines, `timecode<TAB>words`"""
+    """the reader's own tokenisation of the text (SCCReader.read / _translate_line): splitlines, first line skipped,
+    blank lines ignored, lower-cased, timecode = leading [0-9:;]*, words = the rest split at single blanks, stripped,
+    only 4-character tokens count; tokens that are not hexadecimal are code words that mean nothing (here 0)"""
     out = []
-    for line in stream.split("\n")[1:]:
+    for line in stream.splitlines()[1:]:
         if line.strip() == "":
             continue
-        tc, _, ws = line.partition("\t")
-        out.append([tc, [int(w, 16) for w in ws.split(" ") if len(w) == 4]])
+        m = _LINE.findall(line.lower())[0]
+        ws = []
+        for w in m[2].split(" "):
+            w = w.strip()
+            if len(w) == 4:
+                try:
+                    ws.append(int(w, 16))
+                except ValueError:
+                    ws.append(0)
+        out.append([m[0], ws])
     return out
 
 
@@ -146,3 +159,55 @@ def same(a, b, times=True, layout=True):
 
 def cap_text(c):
     return "".join(n[1] if n[0] == 0 else ("\n" if n[0] == 1 else "") for n in c[2])
+
+
+def view(res):
+    """the observation at the level C05 fixes: per caption its lines of (character, italic) with blanks at line ends
+    dropped, and its origin; errors as they are"""
+    if isinstance(res, tuple) or isinstance(res, Err):
+        return res
+    caps = []
+    for c in res.v:
+        lines, cur, it = [], [], False
+        for n in c[2]:
+            if n[0] == 0:
+                cur += [(ch, it) for ch in n[1]]
+            elif n[0] == 1:
+                lines.append(cur)
+                cur = []
+            else:
+                it = n[1] is True
+        lines.append(cur)
+        norm = []
+        for l in lines:
+            while l and l[-1][0].isspace():
+                l = l[:-1]
+            norm.append([(ch, f if not ch.isspace() else None) for ch, f in l])
+        caps.append((norm, c[3]))
+    return Ok(caps)
+
+
+def same_view(a, b):
+    """compare two results at the `view` level; None if equal else a description"""
+    va, vb = view(a), view(b)
+    if not isinstance(va, Ok) or not isinstance(vb, Ok):
+        return None if va == vb else f"outcome {va!r} vs {vb!r}"[:300]
+    if len(va.v) != len(vb.v):
+        return f"{len(va.v)} captions vs {len(vb.v)}"
+    nb = lambda lines: [[(ch, f) for ch, f in l if not ch.isspace()] for l in lines]
+    for i, ((la, xa), (lb, xb)) in enumerate(zip(va.v, vb.v)):
+        # blanks inside a line (the cell of a mid-row code may or may not be rendered) are judged by the oracle, which knows
+        # where a blank is mandatory; here the non-blank characters with their italic flags are compared
+        if nb(la) != nb(lb):
+            return f"caption {i}: lines {la!r} vs {lb!r}"[:400]
+        if (xa is None) != (xb is None) or (xa and not (_num_close(xa[0], xb[0], TOL_L) and _num_close(xa[1], xb[1], TOL_L))):
+            return f"caption {i}: origin {xa!r} vs {xb!r}"
+    return None
+
+
+def blanks_differ(a, b):
+    """counted information: same non-blank content but different blanks"""
+    va, vb = view(a), view(b)
+    if not isinstance(va, Ok) or not isinstance(vb, Ok) or len(va.v) != len(vb.v):
+        return False
+    return any(la != lb for (la, _), (lb, _) in zip(va.v, vb.v))
